@@ -37,6 +37,12 @@ type convergen interface {
 	merge(*SrcA) *Dst
 }
 
+// AVariable is a variable of an interface type that carries a marker: no interface declaration.
+// :convergen
+var AVariable interface {
+	FromVar(*SrcA) *Dst
+}
+
 // NotAnInterface carries a marker but is no interface.
 // :convergen
 type NotAnInterface struct{ X int }
